@@ -125,13 +125,37 @@ func ruleLineLimit(c *Ctx, rule string, shorts ...string) {
 
 // ---- recovercover (C03): every explicit panic of a parser is under a recover-to-error converter ----
 
-func deferConverters(fn *ssa.Function) bool {
+// deferConvertersAt: a defer of the recover-to-error converter has been
+// executed on every path that reaches the instruction at: the defer's block
+// dominates at's block (and precedes it inside one block). A defer further
+// down the function does not protect what runs before it.
+func deferConvertersAt(fn *ssa.Function, at ssa.Instruction) bool {
 	for _, b := range fn.Blocks {
-		for _, ins := range b.Instrs {
-			if d, ok := ins.(*ssa.Defer); ok {
-				if sf := d.Call.StaticCallee(); sf != nil && sf.Name() == "handlePanic" {
-					return true
+		for i, ins := range b.Instrs {
+			d, ok := ins.(*ssa.Defer)
+			if !ok {
+				continue
+			}
+			if sf := d.Call.StaticCallee(); sf == nil || sf.Name() != "handlePanic" {
+				continue
+			}
+			if at == nil {
+				return true
+			}
+			ab := at.Block()
+			if ab == b {
+				for j, x := range b.Instrs {
+					if x == at {
+						if i < j {
+							return true
+						}
+						break
+					}
 				}
+				continue
+			}
+			if b.Dominates(ab) {
+				return true
 			}
 		}
 	}
@@ -180,19 +204,22 @@ func ruleRecoverCover(c *Ctx, rule string, shorts ...string) {
 			if badPath != nil {
 				return
 			}
-			covered = covered || deferConverters(fn)
 			s := st{fn, covered}
 			if seen[s] {
 				return
 			}
 			seen[s] = true
 			path = append(path, funcName(fn))
-			if p := hasExplicitPanic(fn); p != nil {
+			if hasExplicitPanic(fn) != nil {
 				nPanic++
-				if !covered {
-					badPath = append([]string{}, path...)
-					badPos = p.Pos()
-					return
+			}
+			for _, b := range fn.Blocks {
+				for _, ins := range b.Instrs {
+					if p, ok := ins.(*ssa.Panic); ok && !covered && !deferConvertersAt(fn, p) {
+						badPath = append([]string{}, path...)
+						badPos = p.Pos()
+						return
+					}
 				}
 			}
 			for _, b := range fn.Blocks {
@@ -211,7 +238,7 @@ func ruleRecoverCover(c *Ctx, rule string, shorts ...string) {
 					if g == fn {
 						continue
 					}
-					walk(g, covered, path)
+					walk(g, covered || deferConvertersAt(fn, ins), path)
 				}
 			}
 		}
